@@ -198,6 +198,12 @@ Qed.
 Lemma eff_max_pos sc : (0 < eff_max sc)%Z.
 Proof. unfold eff_max. destruct (Z.leb_spec (s_max sc) 0); [reflexivity|assumption]. Qed.
 
+Lemma eff_max_default sc : (s_max sc <= 0)%Z -> eff_max sc = (20 * 1024 * 1024)%Z.
+Proof. intros H. unfold eff_max. destruct (Z.leb_spec (s_max sc) 0); [reflexivity|lia]. Qed.
+
+Lemma eff_max_explicit sc : (0 < s_max sc)%Z -> eff_max sc = s_max sc.
+Proof. intros H. unfold eff_max. destruct (Z.leb_spec (s_max sc) 0); [lia|reflexivity]. Qed.
+
 (* the round-trip law of a codec: reading back what the writer produced (any level) gives the bytes *)
 Definition codec_law (enc : codec -> Z -> bytes -> bytes) (dec : codec -> stream -> dres) : Prop :=
   forall c l b, dec c (enc c l b, E_EOF) = DStream (b, E_EOF).
@@ -225,6 +231,11 @@ Section Codec.
     unfold Model.server. destruct (tget (decoders sc) (hget (w_ce w))) as [sl|]; [|discriminate].
     destruct (run_slot dec cdec sl _) as [[| |s']|]; try discriminate; intros [= _ _ <-]; apply max_bytes_len; lia.
   Qed.
+
+  Lemma default_limit_holds_l sc w ce cl s :
+    (s_max sc <= 0)%Z -> server sc w = Handled ce cl s ->
+    (Z.of_nat (List.length (fst s)) <= 20 * 1024 * 1024)%Z.
+  Proof. intros Hd H. rewrite <- (eff_max_default sc Hd). exact (limit_holds_l sc w ce cl s H). Qed.
 
   Lemma limit_holds_e2e_l cc sc r ce cl s :
     e2e cc sc r = Some (Handled ce cl s) -> (Z.of_nat (List.length (fst s)) <= eff_max sc)%Z.
